@@ -19,6 +19,9 @@ EXTENDS Junos, Integers
 
 CONSTANTS PNames, A4, A6,
           FixEmptyTerm,     \* TRUE: no name-only term for an empty family (fix 99b76e8); FALSE: as found
+          RejectBareTerm,   \* TRUE: the reader refuses a term that has `from family` and `then accept` but no route-filter
+                            \*   (fix ea5fcc6); FALSE: as found - read as "no ranges installed", so an update for an empty
+                            \*   family leaves the accept-all term in place
           SkipNoReject      \* FALSE: an installed policy without trailing reject is read like any other (fix: the
                             \*   update re-asserts the reject and removes stale ranges); TRUE: as found - skipped,
                             \*   i.e. treated as not installed, and then merged into
@@ -39,7 +42,9 @@ FamilySet(p, f) ==
 InstalledView(eph) ==     \* name -> [inet, inet6]
   [n \in {eph[k].name : k \in {k \in 1..Len(eph) : eph[k].reject \/ ~SkipNoReject}} |->
      [inet |-> FamilySet(Get(eph, n), "inet"), inet6 |-> FamilySet(Get(eph, n), "inet6")]]
-ReaderAccepts(eph) == \A k \in 1..Len(eph) : Readable(eph[k])
+ReaderAccepts(eph) == \A k \in 1..Len(eph) :
+  /\ Readable(eph[k])
+  /\ (RejectBareTerm => \A j \in 1..Len(eph[k].terms) : eph[k].terms[j].filters # <<>>)
 
 (* ---- compare() + Differences::write_xml() ---- *)
 RECURSIVE SetSeq(_)
